@@ -26,11 +26,23 @@ var c13directedCases = []struct{ name, src, want string }{
 	{"no-catch-var", `{{v := "keep"}}{{try}}{{nosuchvar}}{{catch}}c{{v = "set"}}{{return 1}}{{end}}{{v}}|{{isset(e)}}`, "cset|false"},
 }
 
+// a catch-less try contains the failure of its body wherever its output goes (the discarding writer of exec included)
+func init() {
+	c13directedCases = append(c13directedCases,
+		struct{ name, src, want string }{"catchless-try-inside-exec", `before|{{ exec("/sub.jet") }}|after`, "before|fallback|after"},
+		struct{ name, src, want string }{"catchless-try-inside-exec-inside-try", `{{try}}A{{ exec("/sub.jet") }}B{{catch}}CAUGHT{{end}}|after`, "AfallbackB|after"},
+		struct{ name, src, want string }{"catchless-try-inside-exec-with-context", `{{ exec("/sub.jet", "c") }}|{{.}}`, "fallback|ctx"},
+	)
+	c13nDirected = len(c13directedCases)
+	c13.nDirected = c13nDirected
+}
+
 var c13nDirected = len(c13directedCases)
 
 func c13directedCase(c *fw.Ctx, idx int) bool {
 	d := c13directedCases[idx]
-	files := map[string]string{"/t.jet": d.src, "/inc.jet": `{{try}}{{nosuchvar}}{{catch e}}c{{return 1}}{{end}}[{{isset(e)}}]`}
+	files := map[string]string{"/t.jet": d.src, "/inc.jet": `{{try}}{{nosuchvar}}{{catch e}}c{{return 1}}{{end}}[{{isset(e)}}]`,
+		"/sub.jet": `x{{try}}y{{nosuchvar}}z{{end}}w{{return "fallback"}}`}
 	c.Begin(idx, map[string]interface{}{"directed": "catch body executing return", "name": d.name, "files": files})
 	defer c.End()
 	res := jx.Run(files, "/t.jet", jet.VarMap{}, "ctx", jx.NoEscape)
@@ -41,6 +53,9 @@ func c13directedCase(c *fw.Ctx, idx int) bool {
 		if strings.HasPrefix(w, res.Out) {
 			ok = true
 		}
+	}
+	if strings.HasPrefix(d.name, "catchless") {
+		ok = res.Err == nil && res.Out == d.want // no return outside exec here: the rendering must go on to the end
 	}
 	if res.Panic != nil || res.ParseErr != nil || !ok || (res.Err == nil && res.Out == "") {
 		c.Violation("c13:catch-with-return:"+d.name, "", fmt.Sprintf("rendered %s; expected %q (or a prefix of it, should the return end the rendering)", res, d.want))
